@@ -112,7 +112,11 @@ pub fn c19_variants(tier: &str, words: &[u32]) -> Vec<Variant> {
         s.words = words.to_vec();
         s.mons.c19 = true;
         s.alpha = Alpha {
-            srcs: vec![(id(B, 0), 0, true), (id(C, 0), 0, true)],
+            // also datagrams FROM older / newer identities of the own address
+            // (echoes of a previous life), addressed to stale identities too
+            srcs: vec![(id(B, 0), 0, true), (id(C, 0), 0, true), (id(A, 0), 0, false), (id(A, 2), 0, false)],
+            own_addr_srcs: true,
+            stale_dst_gens: vec![-1, 1],
             kinds: vec![Kind::Gossip, Kind::Ping, Kind::Announce],
             payload_kinds: vec![Kind::Gossip],
             payloads: vec![
@@ -290,7 +294,8 @@ pub fn c09_variants(tier: &str, words: &[u32]) -> Vec<Variant> {
         // the instance's own address
         a.srcs = vec![
             (id(B, 1), 0, true),
-            (id(B, 0), 0, false),
+            // a superseded sender whose datagrams carry update sections
+            (id(B, 0), 0, true),
             (id(B, 2), 0, false),
             (id(C, 0), 0, true),
             (id(A, 0), 0, false),
@@ -341,7 +346,8 @@ pub fn c10_variants(tier: &str, words: &[u32]) -> Vec<Variant> {
             vec![mm(id(A, 0), 0, State::Suspect)],
             vec![mm(id(A, 2), 3, State::Suspect)],
         ];
-        a.self_rel = vec![(-1, State::Suspect), (0, State::Suspect), (1, State::Suspect), (0, State::Alive), (0, State::Down)];
+        // Down at a lower incarnation than the current one is still Down
+        a.self_rel = vec![(-1, State::Suspect), (0, State::Suspect), (1, State::Suspect), (0, State::Alive), (0, State::Down), (-1, State::Down)];
         a.self_abs = vec![(u16::MAX - 1, State::Suspect), (u16::MAX, State::Suspect), (u16::MAX, State::Alive)];
         a.applies = vec![(vec![al(id(C, 0))], true)];
         a.api = vec![Ev::Leave, Ev::Reuse, Ev::Gossip];
@@ -385,6 +391,11 @@ pub fn c11_variants(tier: &str, words: &[u32]) -> Vec<Variant> {
                 vec![mm(id(B, 1), 0, State::Alive)],
                 vec![mm(id(B, 0), 0, State::Alive)],
                 vec![mm(id(C, 0), 0, State::Down)],
+                // the newer generation goes Down too: two forget-timers for
+                // one address are then outstanding
+                vec![mm(id(B, 1), 0, State::Down)],
+                // a much newer Alive about a (possibly Down) member
+                vec![mm(id(B, 0), 5, State::Alive)],
             ],
             api: vec![],
             change_gens: vec![1],
